@@ -619,3 +619,19 @@ def run(index, rep, tier):
                 ok17, wit = False, w
         rep.check(ok17, "R13.17", pns.qualname, "a block is dispatched with the comment buffer uncleared", fn_where(pns, wit.stmt if wit is not None else None), "_parse_nexus_stream clears the captured comments before every block (%d dispatch sites)" % len(disp),
                   "NexusReader._parse_nexus_stream can reach `%s` on a path that never empties the tokenizer's captured comments: on the routes without a global annotations target (TreeList.get / TreeList.read) a comment or `[&...]` metadata comment written between two blocks stays in the buffer and is attached to the tree list of the next TREES block, while DataSet.get attaches it to the data set - the routes deliver different comments and annotations" % (norm_stmt(wit.stmt)[:50] if wit is not None and wit.stmt is not None else ""))
+
+    # ---- R13.18 files are opened with universal newlines on every route
+    with rep.section("R13.18"):
+        rep.rule("R13.18", "files are opened with universal newlines on every route: the I/O service and the yielders open path sources in text mode without a `newline=` argument, as the other routes do - with newline='' a CRLF file keeps its `\\r\\n` inside comments and quoted labels on the file-iterator route only, so `Tree.yield_from_files([path])` delivers other comments and labels than `TreeList.get(path=...)`")
+        n18 = 0
+        for mod in ("dendropy.dataio.ioservice", "dendropy.dataio.newickyielder", "dendropy.dataio.nexusyielder", "dendropy.dataio.nexmlyielder", "dendropy.datamodel.basemodel"):
+            if mod not in index.modules:
+                continue
+            for f in index.functions_in_module(mod):
+                for c in calls_in(f.node, nested=True):
+                    if isinstance(c.func, ast.Name) and c.func.id == "open" or (isinstance(c.func, ast.Attribute) and c.func.attr == "open" and norm(c.func.value) in ("io", "codecs")):
+                        n18 += 1
+                        nl = get_kwarg(c, "newline")
+                        rep.check(nl is None or is_none(nl), "R13.18", f.qualname, "a source opened with newline=%s" % (norm(nl) if nl is not None else ""), fn_where(f, c), "%s: `%s` uses universal newlines" % (f.name, norm(c)[:50]),
+                                  "%s opens its source with `%s`: line ends are then delivered untranslated on this route only - a CRLF file with a line break inside a comment or a quoted label reads as `...\\r\\n...` here and as `...\\n...` by every other route" % (f.qualname, norm(c)[:60]))
+        rep.floor("R13.18", "open() calls on the reading routes", 2, n18)
